@@ -409,7 +409,8 @@ class SymPaths:
                         nxt += (f if is_or else t)
                 cur = nxt
             return out
-        if self.named_constants and isinstance(e, ast.Attribute) and isinstance(e.value, ast.Name) and e.value.id not in path.env:
+        if self.named_constants and isinstance(e, ast.Attribute) and ((isinstance(e.value, ast.Name) and e.value.id not in path.env) or (
+                isinstance(e.value, ast.Attribute) and isinstance(e.value.value, ast.Name) and e.value.value.id not in path.env)):
             c = self._class_constant(e)
             if c is not None:
                 return [(path, c)]
@@ -498,15 +499,16 @@ class SymPaths:
         """<Class>.<NAME> where the class body binds NAME once to a number / string (the project's constant tables: Chars, Brackets,
         ElementType, TokenType ...) is spelled out: renaming a constant or comparing with the literal changes nothing, and two
         different constants are visibly different values"""
-        name = e.value.id
+        qualified = isinstance(e.value, ast.Attribute)         # <module>.<Class>.<NAME>
+        name = e.value.value.id if qualified else e.value.id
         if name in self.f.locals or name in self.f.params:
             return None
-        key = (name, e.attr)
+        key = (src_of(e.value), e.attr)
         cache = self.__dict__.setdefault('_cc_cache', {})
         if key in cache:
             return copy.deepcopy(cache[key])
         out = None
-        ent = self.p.resolve_name(self.f, name)
+        ent = self.p.resolve_expr(self.f, e.value) if qualified else self.p.resolve_name(self.f, name)
         if ent is not None and ent.kind == 'class':
             cls = ent.obj
             vals = [st.value for st in cls.node.body if isinstance(st, ast.Assign) and any(isinstance(t, ast.Name) and t.id == e.attr for t in st.targets)]
